@@ -542,6 +542,18 @@ func (c *conn) pump(ctx context.Context, gone bool) {
 			c.call.Outcome = "closed-by-server(idle)"
 			return
 		}
+		if c.next > 1 && s.F.Roll("watch-replay-idle") {
+			// a quiet connection re-sends frames it had sent long ago (a proxy
+			// flushing a stale buffer): up to three superseded frames while the
+			// server itself does not change
+			for i := 1 + detsim.Choose("replay-idle-n", 3); i > 0; i-- {
+				old := s.log[detsim.Choose("replay-which", c.next)]
+				if !c.send(ctx, c.frame(old)) {
+					return
+				}
+				c.call.Sent = append(c.call.Sent, old.RV)
+			}
+		}
 		delivered = 0
 		select {
 		case <-s.chg:
